@@ -157,8 +157,9 @@ func (k *checker) halvedMeasures(g graph.Graph, src string, p path.AllShortest) 
 
 type builder struct {
 	half bool // build weighted containers with every weight halved
-	c   *netCase
-	ids []int64 // model node i (1-based) -> real id
+	neg  bool // build weighted containers with every weight negated
+	c    *netCase
+	ids  []int64 // model node i (1-based) -> real id
 }
 
 func (b *builder) id(i int64) int64 { return b.ids[i-1] }
@@ -166,6 +167,9 @@ func (b *builder) id(i int64) int64 { return b.ids[i-1] }
 // build makes the real graph. weightedType selects the Weighted* container
 // (unit weights when the case is unweighted).
 func (b *builder) w(x int64) float64 {
+	if b.neg {
+		return -float64(x)
+	}
 	if b.half {
 		return float64(x) / 2
 	}
